@@ -24,7 +24,7 @@ CLAIMED = {
  'C18': ('other', 'incremental::run writes nothing but its own record (frame condition over every explored path); path/identity part planned.', '4 C18'),
  'C19': ('other', 'resolver exploration with bare and qualified spellings: accepted names, same id for both spellings, bare references resolve in the declaring project.', '4 C19'),
  'C20': ('model_checking', 'LOCAL bounded model checking of the aggregate actor: acknowledges exactly when the last dependency did, answers late requesters, never misdirects; SYS obligations of C04/C08/C11 range over aggregate roots.', '4 C20'),
- 'C12': ('other', 'symbolic execution of the --clean branch of main(), clean.rs, work_dir.rs, delete_saved_env_state over a symbolic tree: the deletion primitives invoked = the reference set (declared outputs / matching files / own state or whole work dir), for --clean and --clean T. Symbolic links are NOT decided.', '4 C12'),
+ 'C12': ('other', 'symbolic execution of the --clean branch of main(), clean.rs, work_dir.rs, delete_saved_env_state over a symbolic tree: the deletion primitives invoked = the reference set (declared outputs / matching files / own state or whole work dir), for --clean and --clean T; one directory symlink below a filtered output is part of the tree (links to files / as declared paths are not decided).', '4 C12'),
  'C14': ('other', 'decidable part only: the import walk of yaml::Config::load + ir::Config::from over solver-chosen project names and import edges (keys = names, named imports, unique names, termination, cycles/self-imports). The byte-level YAML clauses (no panic on any byte string, unknown keys, exactly one kind) are NOT decided (serde_yaml/yaml-rust not encodable within reach). Found F5 (fixed).', '4 C14'),
  'C15': ('other', 'symbolic execution of fs::list_files_in_resources / matches_extensions / is_work_dir over a symbolic tree with awkward names (dot-files, multi-dot, name = extension, non-UTF-8, .zinoma at depth) against the reference listing; transform_extensions normalisation.', '4 C15'),
  'C16': ('other', 'symbolic execution of TargetWatcher::new and its event closure over solver-chosen events (1-2 paths incl. non-UTF-8, Err events, full slot): no panic, notifies iff a relevant path, missing paths do not fail start-up. Found F4 (fixed).', '4 C16'),
